@@ -2,6 +2,7 @@ package props
 
 import (
 	"fmt"
+	"math"
 
 	eval "github.com/onheap/eval"
 
@@ -43,7 +44,7 @@ func tryEvalCheck(r *rep.Run, kleene bool) {
 	if kleene {
 		r.Rule = "every CORE/RICH program up to the node bound (+ the one-node programs only infix notation can write) x 16 optimisation subsets x {events off, ReportEvent} (+ variables resolved by name, + registered variables in a config that allows undefined ones, there also through the context NewCtxFromVars builds from the available values; unavailable variables also expressed as cached-with-the-DNE-marker-as-value) x every split of its variables into available/unavailable x every value assignment; plus programs compiled against an EXTENSION of the config the context was built from (0..18, 254..300 bound variables, one or two late ones): late variables are unavailable; restricted to pairs in which no operator application over known values fails; oracle: strong-Kleene three-valued reference R2 — R2 definite => TryEval returns exactly that value with nil error; R2 unknown => TryEval returns DNE or a value that Eval confirms on every completion, never an error; TryEvalBool mirrors (ErrDNE iff DNE). non-trivial = (program,split,assignment) triples with at least one unavailable variable and a definite R2 answer"
 	} else {
-		r.Rule = "every CORE/RICH program up to the node bound (+ the one-node programs only infix notation can write) x 16 optimisation subsets x {events off, ReportEvent} (+ variables resolved by name, + registered variables in a config that allows undefined ones, there also through the context NewCtxFromVars builds from the available values; unavailable variables also expressed as cached-with-the-DNE-marker-as-value) x every split of its variables into available/unavailable (2^k) x every value assignment to both parts (thorough: plus one ill-typed value per unavailable variable); oracle: a definite TryEval answer equals real Eval on EVERY completion on which Eval succeeds; with everything available TryEval == Eval (value and error-ness); a definite answer on a split stays the same on every larger split; no Get on an unavailable variable. Plus 9 programs with user operators that keep the parameter slice they were handed (tuple constructors of 1/3/4 parameters) or read a variable by name through their context. non-trivial = triples with an unavailable variable and a definite TryEval answer"
+		r.Rule = "every CORE/RICH program up to the node bound (+ the one-node programs only infix notation can write) x 16 optimisation subsets x {events off, ReportEvent} (+ variables resolved by name, + registered variables in a config that allows undefined ones, there also through the context NewCtxFromVars builds from the available values; unavailable variables also expressed as cached-with-the-DNE-marker-as-value) x every split of its variables into available/unavailable (2^k) x every value assignment to both parts (thorough: plus one ill-typed value per unavailable variable); oracle: a definite TryEval answer equals real Eval on EVERY completion on which Eval succeeds; with everything available TryEval == Eval (value and error-ness); a definite answer on a split stays the same on every larger split; no Get on an unavailable variable. Plus 9 programs with user operators that keep the parameter slice they were handed (tuple constructors of 1/3/4 parameters) or read a variable by name through their context, and 38 programs over value domains the typed sweep lacks (int64 extremes under every comparison, empty strings and empty/one-element lists under in/overlap). non-trivial = triples with an unavailable variable and a definite TryEval answer"
 	}
 	r.Assume = []string{"small-scope hypothesis on tree size", "the fetcher truthfully reports availability (Cached) and values"}
 	r.Cov["bounds"] = map[string]int{"core_max_nodes": coreMax, "rich_max_nodes": richMax}
@@ -372,6 +373,7 @@ func tryEvalCheck(r *rep.Run, kleene bool) {
 	tryEvalLateVariable(r)
 	if !kleene {
 		tryEvalUserOperators(r)
+		tryEvalValues(r)
 	}
 	r.Finish()
 }
@@ -557,17 +559,28 @@ func tryEvalUserOperators(r *rep.Run) {
 		{Src: "(if (var_eq \"b1\" true) n0 (+ n0 1))", Vars: []term.VarDecl{vI(0), vB(1)}},
 		{Src: "(and b0 (var_eq \"b1\" true) (var_eq \"n2\" 1))", Vars: []term.VarDecl{vB(0), vB(1), vI(2)}},
 	}
+	runs, nontrivial := tryEvalConsistency(r, h, progs, func(v term.VarDecl) []interface{} {
+		if v.Ty == B {
+			return []interface{}{true, false}
+		}
+		return []interface{}{int64(0), int64(1), int64(4)}
+	}, []drive.Opt{{}, {CF: true, RN: true, FE: true, RO: true}, {FE: true}, {RN: true, RO: true}, {Undef: 1}, {CF: true, RN: true, FE: true, RO: true, Undef: 1}})
+	r.Cov["user_operator_runs"] = runs
+	r.Add(0, runs, runs, runs, nontrivial)
+}
+
+// tryEvalConsistency runs the two C04 oracles (a definite TryEval answer equals
+// Eval on every completion on which Eval succeeds; with everything available
+// TryEval == Eval) for hand-written programs over explicit value domains:
+// every split x every assignment x the given option sets.
+func tryEvalConsistency(r *rep.Run, h *drive.Harness, progs []*Prog, domFor func(term.VarDecl) []interface{}, optSets []drive.Opt) (int64, int64) {
 	var runs, nontrivial int64
 	for _, p := range progs {
 		k := len(p.Vars)
 		doms := make([][]interface{}, k)
 		total := 1
 		for v := range p.Vars {
-			if p.Vars[v].Ty == B {
-				doms[v] = []interface{}{true, false}
-			} else {
-				doms[v] = []interface{}{int64(0), int64(1), int64(4)}
-			}
+			doms[v] = domFor(p.Vars[v])
 			total *= len(doms[v])
 		}
 		decode := func(idx int, vals []interface{}) {
@@ -576,11 +589,11 @@ func tryEvalUserOperators(r *rep.Run) {
 				idx /= len(doms[v])
 			}
 		}
-		for _, o := range []drive.Opt{{}, {CF: true, RN: true, FE: true, RO: true}, {FE: true}, {RN: true, RO: true}, {Undef: 1}, {CF: true, RN: true, FE: true, RO: true, Undef: 1}} {
+		for _, o := range optSets {
 			cfg := h.NewConfig(p.Vars, o)
-			e, err := h.Compile(cfg, p.Src, 0)
+			e, err := h.Compile(cfg, p.Src, 4096)
 			if err != nil {
-				r.Violate("compile", p.Src+o.String(), sprintf("program with user operators does not compile: %v", err), nil)
+				r.Violate("compile", p.Src+o.String(), sprintf("hand-written program does not compile: %v", err), nil)
 				continue
 			}
 			f := drive.NewFetcher(h, p.Vars, o)
@@ -661,6 +674,50 @@ func tryEvalUserOperators(r *rep.Run) {
 			}
 		}
 	}
-	r.Cov["user_operator_runs"] = runs
+	return runs, nontrivial
+}
+
+// tryEvalValues: the C04 oracles over VALUE domains the typed sweep does not
+// have: int64 extremes under the ordering comparisons, and empty strings /
+// empty and one-element lists under in / overlap.
+func tryEvalValues(r *rep.Run) {
+	h := drive.NewHarness()
+	vI := func(i int) term.VarDecl { return term.VarDecl{Name: sprintf("n%d", i), Ty: I} }
+	vB := func(i int) term.VarDecl { return term.VarDecl{Name: sprintf("b%d", i), Ty: B} }
+	vS := func(i int) term.VarDecl { return term.VarDecl{Name: sprintf("s%d", i), Ty: term.TS} }
+	vSL := func(i int) term.VarDecl { return term.VarDecl{Name: sprintf("ls%d", i), Ty: term.TSL} }
+	vIL := func(i int) term.VarDecl { return term.VarDecl{Name: sprintf("li%d", i), Ty: term.TIL} }
+	var progs []*Prog
+	for _, cmp := range []string{"gt", "lt", "ge", "le", ">", "<", ">=", "<=", "=", "!="} {
+		progs = append(progs,
+			&Prog{Src: "(or (" + cmp + " n0 n1) b2)", Vars: []term.VarDecl{vI(0), vI(1), vB(2)}},
+			&Prog{Src: "(and b2 (" + cmp + " n0 n1))", Vars: []term.VarDecl{vI(0), vI(1), vB(2)}},
+			&Prog{Src: "(if (" + cmp + " n0 n1) 1 2)", Vars: []term.VarDecl{vI(0), vI(1)}})
+	}
+	progs = append(progs,
+		&Prog{Src: "(between n0 n1 n2)", Vars: []term.VarDecl{vI(0), vI(1), vI(2)}},
+		&Prog{Src: "(or (in s0 ls1) b2)", Vars: []term.VarDecl{vS(0), vSL(1), vB(2)}},
+		&Prog{Src: "(and (not (in s0 ls1)) b2)", Vars: []term.VarDecl{vS(0), vSL(1), vB(2)}},
+		&Prog{Src: "(if (overlap ls0 ls1) 1 2)", Vars: []term.VarDecl{vSL(0), vSL(1)}},
+		&Prog{Src: "(or (overlap ls0 ls1) (in s2 ls0))", Vars: []term.VarDecl{vSL(0), vSL(1), vS(2)}},
+		&Prog{Src: "(and (in n0 li1) b2)", Vars: []term.VarDecl{vI(0), vIL(1), vB(2)}},
+		&Prog{Src: "(if (overlap li0 li1) 1 2)", Vars: []term.VarDecl{vIL(0), vIL(1)}},
+		&Prog{Src: "(or (in s0 (\"\" \"g\")) (in s0 ls1))", Vars: []term.VarDecl{vS(0), vSL(1)}})
+	runs, nontrivial := tryEvalConsistency(r, h, progs, func(v term.VarDecl) []interface{} {
+		switch v.Ty {
+		case B:
+			return []interface{}{true, false}
+		case I:
+			return []interface{}{int64(0), int64(-1), int64(1), int64(math.MaxInt64), int64(math.MinInt64)}
+		case term.TS:
+			return []interface{}{"", "g", "x"}
+		case term.TSL:
+			return []interface{}{[]string{}, []string{""}, []string{"", "g"}, []string{"x"}}
+		case term.TIL:
+			return []interface{}{[]int64{}, []int64{0}, []int64{-1, math.MaxInt64}}
+		}
+		return []interface{}{nil}
+	}, []drive.Opt{{}, {CF: true, RN: true, FE: true, RO: true}, {FE: true}, {Events: 1, FE: true}, {Undef: 1, FE: true}})
+	r.Cov["value_domain_runs"] = runs
 	r.Add(0, runs, runs, runs, nontrivial)
 }
